@@ -68,10 +68,10 @@ fn probe_depth(c: &Case, l: u64) -> f64 {
 pub fn scripted(c: &Case) -> ScriptedCase {
     let d: Vec<f64> = (0..c.loops.max(1)).map(|l| probe_depth(c, l)).collect();
     ScriptedCase {
-        init: vec![0.5; c.k],
-        bounds: vec![(0., 1.); c.k],
+        init: vec![0.; c.k],
+        bounds: vec![(-1e6, 1e6); c.k],
         script: Script::Probe { d, inner: c.inner, jam: c.jam.clone() },
-        cfg: OptCfg { steps: c.loops * c.inner, inner_steps: c.inner, kt_start: c.kt_start, kt_finish: c.kt_finish, kt_ratio: c.kt_ratio, max_step_size: 0.002, seed: c.seed, convergence: None },
+        cfg: OptCfg { steps: c.loops * c.inner, inner_steps: c.inner, kt_start: c.kt_start, kt_finish: c.kt_finish, kt_ratio: c.kt_ratio, max_step_size: 1e-6, seed: c.seed, convergence: None },
         via_api: c.via_api,
     }
 }
